@@ -1,5 +1,5 @@
 (* C09 non-vacuity: concrete values meeting the hypotheses of each theorem. *)
-From V Require Import Common.Base C09.Cache C09.CacheProofs.
+From V Require Import Common.Base C09.Cache C09.CacheProofs C09.Watch C09.WatchProofs.
 
 (* a history with a hit (same usable key), a miss after an edit that changed
    the key, and an unusable key: the hypothesis holds and the hit is real *)
@@ -54,3 +54,31 @@ Example ex_rebuilds :
     [(ex_w 5 1 0 1, ex_build); (ex_w 5 1 0 1, ex_build); (ex_w 6 2 0 1, ex_build); (ex_w 6 2 3 2, ex_build)]
   = [50; 50; 60; 63].
 Proof. vm_compute. reflexivity. Qed.
+
+(* watch: a log over a directory (1) and two files (2 present, 3 looked for and
+   missing) that satisfies every hypothesis of watch_covers_observations with a
+   world w' in which an unrelated entry was added: all predicates are clean *)
+Definition ex_a : name := [97; 46; 106; 115].
+Definition ex_b : name := [98; 46; 116; 115].
+Definition ex_u : name := [117; 46; 109; 100].
+Definition ex_ww (names : list name) : wworld :=
+  mkWw (fun p => if p =? 1 then Some names else None)
+       (fun p => if p =? 2 then RdOk 5 else RdErr 2)
+       (fun p => if p =? 2 then MKOk [9; 9] else MKErr 2)
+       (fun p => p =? 2).
+Definition ex_log : list obs := [OReadDir 1; OGet 1 ex_a; OGet 1 ex_b; OModKey 2; OReadFile 2; OModKey 3; OReadFile 3].
+Example ex_watch_clean : clean (ex_ww [ex_a; ex_u]) (finalize (ex_ww [ex_a]) (record (ex_ww [ex_a]) ex_log)) = true.
+Proof. vm_compute. reflexivity. Qed.
+Example ex_watch_dirty_when_missing_file_appears :
+  dirty_paths (ex_ww [ex_a; ex_b]) (finalize (ex_ww [ex_a]) (record (ex_ww [ex_a]) ex_log)) = [1].
+Proof. vm_compute. reflexivity. Qed.
+Example ex_watch_wf : forall o, In o ex_log -> wf_path ex_log (obs_path o).
+Proof.
+  intros o H. unfold ex_log in H. simpl in H.
+  repeat (destruct H as [H|H]; [subst o; cbn [obs_path]; first [left; eexists; split; vm_compute; reflexivity | right; vm_compute; reflexivity]|]).
+  contradiction.
+Qed.
+Example ex_watch_file_hyps : forall p, p = 2 \/ p = 3 -> file_hyps (ex_ww [ex_a]) (ex_ww [ex_a; ex_u]) p.
+Proof.
+  intros p [H|H]; subst p; unfold file_hyps, coherent_at; cbn; repeat split; intros; try discriminate; try congruence; eauto.
+Qed.
